@@ -264,15 +264,15 @@ def intervening_mutation(fn, root, local, path, from_bbs, to_bb):
 
 
 # ---- field write table (A9) ------------------------------------------------------------------
-def struct_field_writes(fx, adt, field):
-    """All writes to `adt.field` in the crate: list of dict(fn, bb, idx, how, value(V|None), line).
+def struct_field_writes(fx, adt, field, fns=None):
+    """All writes to `adt.field` in the crate (or in the given functions / views): list of dict(fn, bb, idx, how, value(V|None), line).
     how in: 'init' (aggregate construction), 'assign', 'calldest', 'mutborrow' (a &mut of the field escapes to a call)"""
     out = []
     fnames = fx.field_names(adt)
     if field not in fnames:
         return None
     fidx = fnames.index(field)
-    for fn in fx.fns.values():
+    for fn in (fns if fns is not None else fx.fns.values()):
         fv = None
         for b in fn.blocks:
             if b["cleanup"]:
@@ -645,3 +645,25 @@ def fmt_pieces(v):
     if ai != len(args):
         return None
     return out
+
+
+def private_helpers_of(fx, view):
+    """names of the functions spliced into `view` that are called from nowhere else (only from the view's function or from
+    other such helpers): their code is, for every purpose, part of the view's function"""
+    import callgraph as cg
+    inl = view.inlined_names()
+    g = cg.build(fx)
+    callers = {}
+    for a, bs in g.items():
+        for b in bs:
+            callers.setdefault(b, set()).add(a)
+    ok = set(inl)
+    changed = True
+    while changed:
+        changed = False
+        for h in list(ok):
+            cs = callers.get(h, set()) - {h}
+            if not cs <= (ok | {view.name}):
+                ok.discard(h)
+                changed = True
+    return ok
